@@ -54,27 +54,41 @@ def gen_tree(rng):
         return out
 
     shape = rng.choice(["flat", "flat", "one", "two", "chain", "twochain"])
-    main = {"id": 1, "rules": rules(rng.randint(1, 4)), "imports": []}
+    qmode = rng.random() < 0.3
+    deco = lambda m: dict(m, qmode=qmode, style=rng.choice([0, 0, 1]))
+    main = deco({"id": 1, "rules": rules(rng.randint(1, 4)), "imports": []})
     if shape in ("one", "two", "chain", "twochain"):
-        i1 = {"id": 2, "rules": rules(rng.randint(1, 3)), "imports": []}
+        i1 = deco({"id": 2, "rules": rules(rng.randint(1, 3)), "imports": []})
         main["imports"].append(i1)
         if shape in ("chain", "twochain"):
-            i1["imports"].append({"id": 4, "rules": rules(rng.randint(1, 2)), "imports": []})
+            i1["imports"].append(deco({"id": 4, "rules": rules(rng.randint(1, 2)), "imports": []}))
     if shape in ("two", "twochain"):
-        main["imports"].append({"id": 3, "rules": rules(rng.randint(1, 3)), "imports": []})
+        main["imports"].append(deco({"id": 3, "rules": rules(rng.randint(1, 3)), "imports": []}))
     return main
 
 
 def render_module(mod, first_line, is_main):
-    """returns (text, line->rid map, next free line). One template per line; lines are globally unique."""
-    lines = ['<xsl:stylesheet version="1.0" %s>' % XSLNS]
+    """returns (text, line->rid map, next free line). One template per line; lines are globally unique.
+    Lexical variation that must not matter (XSLT 2.4: an unprefixed QName in mode= is in NO namespace, whatever default namespace
+    is declared; a prefixed mode is compared by expanded name): a module may declare a default namespace, and may spell the tested
+    mode with its own prefix bound to the shared mode namespace."""
+    style = mod.get("style", 0)
+    extra = ""
+    if style & 1:
+        extra += ' xmlns="urn:default-ns-of-module-%d"' % mod["id"]
+    qmode = bool(mod.get("qmode"))
+    pfx = "m%d" % mod["id"]
+    if qmode:
+        extra += ' xmlns:%s="urn:mode-ns"' % pfx
+    mode_text = lambda m: (pfx + ":" + m) if qmode else m
+    lines = ['<xsl:stylesheet version="1.0" %s%s>' % (XSLNS, extra)]
     for imp in mod["imports"]:
         lines.append('<xsl:import href="mod%d.xsl"/>' % imp["id"])
     while len(lines) < first_line - 1:
         lines.append("")
     lmap = {}
     for r in mod["rules"]:
-        attrs = 'match=%s mode="%s"' % (quoteattr(xpgen.render(r["pat"])), r["mode"])
+        attrs = 'match=%s mode="%s"' % (quoteattr(xpgen.render(r["pat"])), mode_text(r["mode"]))
         if r["hasPrio"]:
             m = r["prio"]["m"] * (-1 if r["prio"]["neg"] else 1)
             attrs += ' priority="%s"' % prio_text(m)
@@ -83,7 +97,7 @@ def render_module(mod, first_line, is_main):
         lines.append("<xsl:template %s>%s</xsl:template>" % (attrs, body))
         lmap[len(lines)] = r["rid"]
     if is_main:
-        lines.append('<xsl:template match="/" priority="99"><xsl:apply-templates select="//node() | //@* | /" mode="m"/></xsl:template>')
+        lines.append('<xsl:template match="/" priority="99"><xsl:apply-templates select="//node() | //@* | /" mode="%s"/></xsl:template>' % mode_text("m"))
         lmap[len(lines)] = -99
     lines.append("</xsl:stylesheet>")
     return "\n".join(lines) + "\n", lmap, len(lines) + 2
